@@ -586,3 +586,51 @@ pub fn deraw_case(fl: &str, id: &str, fmt: &str, docs: &[Vec<u8>]) -> Vec<String
     }
     l
 }
+
+/// documents of the container with text keys (`Graph<String, i64, u32>`): short, empty, long and non-ASCII keys
+/// (multi-byte characters across every small byte offset), some edges naming an undeclared key
+pub fn destr_case(rng: &mut Rng, fl: &str, id: &str) -> Vec<String> {
+    let pool = |rng: &mut Rng| -> String {
+        match rng.below(8) {
+            0 => String::new(),
+            1 => "a".into(),
+            2 => "k".repeat(1 + rng.below(70)),
+            3 => "\u{e9}".repeat(1 + rng.below(40)),
+            4 => format!("{}{}", "a".repeat(rng.below(40)), "\u{65e5}\u{672c}\u{8a9e}".repeat(1 + rng.below(12))),
+            5 => format!("{}\u{1f600}{}", "x".repeat(rng.below(36)), "y".repeat(rng.below(5))),
+            6 => "\"\\\n\u{0}".into(),
+            _ => format!("n{}", rng.below(5)),
+        }
+    };
+    let mut l = vec![format!("case {fl} {id}")];
+    for _ in 0..6 {
+        let n = rng.below(5);
+        let mut nodes: Vec<(String, i64)> = vec![];
+        for _ in 0..n {
+            let k = pool(rng);
+            if !nodes.iter().any(|x| x.0 == k) {
+                nodes.push((k, rng.below(7) as i64 - 3));
+            }
+        }
+        let mut edges: Vec<(String, String, u32)> = vec![];
+        if !nodes.is_empty() {
+            for _ in 0..rng.below(5) {
+                edges.push((nodes[rng.below(nodes.len())].0.clone(), nodes[rng.below(nodes.len())].0.clone(), rng.below(9) as u32));
+            }
+        }
+        if rng.chance(50) {
+            // an undeclared key, as source or as target, somewhere in the list
+            let mut k = pool(rng);
+            while nodes.iter().any(|x| x.0 == k) {
+                k.push('\u{e9}');
+            }
+            let other = if nodes.is_empty() { k.clone() } else { nodes[rng.below(nodes.len())].0.clone() };
+            let e = if rng.chance(50) { (k, other, 1) } else { (other, k, 1) };
+            edges.insert(rng.below(edges.len() + 1), e);
+        }
+        let doc = (nodes, edges);
+        l.push(format!("g.destr 0 json {}", crate::exec_cont::hex(&serde_json::to_vec(&doc).unwrap())));
+        l.push(format!("g.destr 0 cbor {}", crate::exec_cont::hex(&serde_cbor::to_vec(&doc).unwrap())));
+    }
+    l
+}
